@@ -776,6 +776,163 @@ fn worker(args: &Args) -> ! {
     std::process::exit(0)
 }
 
+// ------------------------------------------------------------------ C05: one checked block above 16 MiB
+
+/// A directory pack whose single entry store is one CRC-protected block of 19.2 MB (300 000
+/// entries of 8 x 8 bytes), read from a file: the biggest block shape the reader treats
+/// differently (blocks are copied in memory or mapped depending on their size). A handful of
+/// alterations inside that block; the altered entry must fail to read or read as written.
+fn giant(args: &Args) -> ! {
+    use jubako::reader::{EntryTrait, Range};
+    let mut rep = Report::new(
+        "faultmc",
+        "C05",
+        "one container whose entry store is a single checked block of 19.2 MB (300000 entries x 8 unsigned 8-byte properties), file-backed; the value of entry j, property k is a function of (j,k), located in the file by its byte pattern; for j in {0, 1000, 150000, 262143, 299999} x {bit 0, bit 7 of the first byte, last byte xor ff, 8 bytes zeroed}: the container is re-opened and entry j read: every property is as written or the read fails; non-trivial = every case",
+    );
+    const N: u64 = 300_000;
+    let value = |j: u64, k: u64| -> u64 { 0xA5_00_00_00_00_00_00_00 | (k << 48) | (j.wrapping_mul(2_654_435_761) & 0xFFFF_FFFF_FFFF) };
+    let dir = jbkmc::scratch_dir("giant");
+    let path = dir.path().join("giant.jbk");
+    let built = jbkmc::catch(|| -> Result<(), String> {
+        let up = camino::Utf8PathBuf::from_path_buf(path.clone()).unwrap();
+        let creator = jubako::creator::BasicCreator::new(&up, jubako::creator::ConcatMode::OneFile, jubako::VendorId::from(jbkmc::packs::VENDOR), jubako::creator::Compression::None, std::sync::Arc::new(()))
+            .map_err(|e| e.to_string())?;
+        let names: [&'static str; 8] = ["p0", "p1", "p2", "p3", "p4", "p5", "p6", "p7"];
+        let schema = jubako::creator::schema::Schema::<&'static str, &'static str>::new(
+            jubako::creator::schema::CommonProperties::new(names.iter().map(|n| jubako::creator::schema::Property::new_uint(*n)).collect()),
+            vec![],
+            None,
+        );
+        let mut store = Box::new(jubako::creator::EntryStore::new(schema, None));
+        for j in 0..N {
+            let mut map = std::collections::HashMap::new();
+            for (k, n) in names.iter().enumerate() {
+                map.insert(*n, jubako::Value::Unsigned(value(j, k as u64)));
+            }
+            let e = jubako::creator::BasicEntry::new_from_schema(&store.schema, None, map);
+            store.add_entry(e);
+        }
+        struct One(Option<Box<jubako::creator::EntryStore<&'static str, &'static str, jubako::creator::BasicEntry<&'static str, &'static str>>>>);
+        impl jubako::creator::EntryStoreTrait for One {
+            fn finalize(self: Box<Self>, directory_pack: &mut jubako::creator::DirectoryPackCreator) {
+                let mut me = self;
+                let store = me.0.take().unwrap();
+                let id = directory_pack.add_entry_store(store);
+                directory_pack.create_index("all", Default::default(), 0.into(), id, jubako::EntryCount::from(N as u32), jubako::EntryIdx::from(0).into());
+            }
+        }
+        creator.finalize(Box::new(One(Some(store))), vec![]).map_err(|e| e.to_string())?;
+        Ok(())
+    });
+    match built {
+        Ok(Ok(())) => {}
+        Ok(Err(e)) => {
+            rep.violation("C05 creation of the 19 MB entry store failed", &e, json!({"engine":"faultmc","sub":"c05giant"}));
+            rep.finish(args);
+        }
+        Err(p) => {
+            rep.violation(&format!("C05 creation of the 19 MB entry store panics {}", jbkmc::panic_site(&p)), &p, json!({"engine":"faultmc","sub":"c05giant"}));
+            rep.finish(args);
+        }
+    }
+    let pristine = std::fs::read(&path).expect("read giant");
+    rep.extra.insert("file_bytes".into(), json!(pristine.len()));
+    let read_entry = |j: u64| -> Result<Vec<u64>, String> {
+        let c = jubako::reader::Container::new(&path).map_err(jerr_short)?;
+        let index = c.get_index_for_name("all").map_err(jerr_short)?.ok_or("no index")?;
+        let store = index.get_store(c.get_entry_storage()).map_err(jerr_short)?;
+        let builder = jubako::reader::builder::AnyBuilder::new(store, &**c.get_value_storage()).map_err(jerr_short)?;
+        let e = index.get_entry(&builder, jubako::EntryIdx::from(j as u32)).map_err(jerr_short)?.ok_or("entry absent")?;
+        let mut v = vec![];
+        for k in 0..8 {
+            match e.get_value(&format!("p{k}")).map_err(jerr_short)? {
+                Some(jubako::reader::RawValue::U64(x)) => v.push(x),
+                Some(other) => return Err(format!("p{k} is not a u64: {other:?}")),
+                None => return Err(format!("p{k} absent")),
+            }
+        }
+        Ok(v)
+    };
+    let picks = [0u64, 1000, 150_000, 262_143, N - 1];
+    for &j in &picks {
+        let want: Vec<u64> = (0..8).map(|k| value(j, k)).collect();
+        match jbkmc::catch(|| read_entry(j)) {
+            Ok(Ok(v)) if v == want => {}
+            other => {
+                rep.violation("C05 pristine 19 MB entry store does not read as written", &format!("entry {j}: {other:?}"), json!({"engine":"faultmc","sub":"c05giant","entry":j}));
+                rep.finish(args);
+            }
+        }
+        // where is entry j? (its first property, little endian, is unique in the file)
+        let pat = value(j, 0).to_le_bytes();
+        let pos = match pristine.windows(8).position(|w| w == pat) {
+            Some(p) => p,
+            None => {
+                rep.machinery_errors.push(format!("entry {j}: value pattern not found in the file"));
+                continue;
+            }
+        };
+        let alts: Vec<(&str, Vec<(usize, u8)>)> = vec![
+            ("bit0", vec![(pos, pristine[pos] ^ 0x01)]),
+            ("bit7", vec![(pos, pristine[pos] ^ 0x80)]),
+            ("last-byte-ff", vec![(pos + 63, pristine[pos + 63] ^ 0xff)]),
+            ("zero8", (0..8).map(|d| (pos + 8 + d, 0u8)).collect()),
+        ];
+        for (name, changes) in alts {
+            let case = json!({"engine":"faultmc","sub":"c05giant","entry":j,"alt":name,"at":pos});
+            if let Some(p) = &args.replay {
+                let r: J = serde_json::from_str(&std::fs::read_to_string(p).expect("replay")).unwrap();
+                let r = if r.get("case").is_some() { r["case"].clone() } else { r };
+                if r["entry"] != json!(j) || r["alt"] != json!(name) {
+                    continue;
+                }
+            }
+            {
+                use std::io::{Seek, SeekFrom, Write};
+                let mut f = std::fs::OpenOptions::new().write(true).open(&path).unwrap();
+                for (at, b) in &changes {
+                    f.seek(SeekFrom::Start(*at as u64)).unwrap();
+                    f.write_all(&[*b]).unwrap();
+                }
+            }
+            let got = jbkmc::catch(|| read_entry(j));
+            {
+                use std::io::{Seek, SeekFrom, Write};
+                let mut f = std::fs::OpenOptions::new().write(true).open(&path).unwrap();
+                for (at, _) in &changes {
+                    f.seek(SeekFrom::Start(*at as u64)).unwrap();
+                    f.write_all(&[pristine[*at]]).unwrap();
+                }
+            }
+            let id = case.to_string();
+            match got {
+                Ok(Err(e)) => rep.case(Some(&id), &format!("error: {}", e.split_whitespace().take(4).collect::<Vec<_>>().join(" "))),
+                Ok(Ok(v)) if v == want => rep.case(Some(&id), "reads as written"),
+                Ok(Ok(v)) => {
+                    rep.case(Some(&id), "violation");
+                    rep.violation(
+                        "C05 silently different: property values of an entry in a checked block above 16 MiB",
+                        &format!("entry {j} after {name} at byte {pos}: read {:x?}, written {:x?}", v, want),
+                        case.clone(),
+                    );
+                }
+                Err(p) => {
+                    rep.case(Some(&id), "panic");
+                    rep.violation(&format!("C06 panic {}", jbkmc::panic_site(&p)), &p, case.clone());
+                }
+            }
+            if rep.samples.len() < 3 {
+                rep.sample(case);
+            }
+        }
+    }
+    rep.finish(args)
+}
+
+fn jerr_short(e: jubako::Error) -> String {
+    jerr(e).to_string().chars().take(200).collect()
+}
+
 // ------------------------------------------------------------------ parent
 
 fn path_class(p: &str) -> String {
@@ -798,6 +955,9 @@ fn main() {
     let args = Args::parse();
     if args.flag("--worker") {
         worker(&args);
+    }
+    if args.sub == "c05giant" {
+        giant(&args);
     }
     let (prop, rule) = match args.sub.as_str() {
         "c04" => ("C04", "every byte inside a pack's checked range or check block (classified by the independent decoder) x xor masks {01,80,ff}, every aligned 4/16-byte run zeroed, every covered byte inside a CRC block flipped WITH the block CRC recomputed (block map from the independent Python decoder: only the blake3 can notice), every 13th (thorough: 3rd) covered byte of the file-backed / mmapped packs altered in place AFTER the handles were opened and checked once, (thorough) pairs of covered positions on the small containers; oracle: Pack::check of that pack, ContainerPack::check of the file and Container::check each answer false or an error; non-trivial = the altered byte is covered by a checksum; distinct by (container,file,alteration)"),
